@@ -53,3 +53,48 @@ func cmdNf5(args []tok) string {
 	}
 	return fmt.Sprintf("OK clean=%s H:%s F:%d %s J:%s", clean, structFields(m.Header), len(m.Flows), strings.Join(fl, "|"), j)
 }
+
+func init() { commands["nf5seq"] = cmdNf5Seq }
+
+// nf5seq (<addr> <payload>)... : decode ALL datagrams first, keeping the messages, and only then print / encode each
+func cmdNf5Seq(args []tok) string {
+	type res struct {
+		m   *netflow5.Message
+		err error
+	}
+	var rs []res
+	for i := 0; i+1 < len(args); i += 2 {
+		if args[i].kind != 'b' || args[i+1].kind != 'b' {
+			return "BADARGS"
+		}
+		d := netflow5.NewDecoder(net.IP(args[i].b), guarded(args[i+1].b))
+		m, err := d.Decode()
+		rs = append(rs, res{m, err})
+	}
+	var outs []string
+	for _, r := range rs {
+		if r.m == nil {
+			outs = append(outs, "ERR")
+			continue
+		}
+		clean := "1"
+		if r.err != nil {
+			clean = "0"
+		}
+		var fl []string
+		for _, f := range r.m.Flows {
+			fl = append(fl, structFields(f))
+		}
+		j := "-"
+		if r.m.Flows != nil {
+			b, err := r.m.JSONMarshal(new(bytes.Buffer))
+			if err != nil {
+				j = "MARSHAL-ERROR"
+			} else {
+				j = string(b)
+			}
+		}
+		outs = append(outs, fmt.Sprintf("OK clean=%s H:%s F:%d %s J:%s", clean, structFields(r.m.Header), len(r.m.Flows), strings.Join(fl, "|"), j))
+	}
+	return strings.Join(outs, " ## ")
+}
